@@ -59,7 +59,7 @@ func extract(a hx.ExtractArgs) error {
 		g bool
 	}
 	var guards []guard
-	incBefore, errReturns, sawBegin := false, 0, false
+	incBefore, errReturns, errAfterInc, sawBegin := false, 0, 0, false
 	for _, d := range src.File.Decls {
 		fd, ok := d.(*ast.FuncDecl)
 		if !ok || fd.Recv == nil || len(fd.Recv.List) != 1 || hx.RecvName(fd.Recv.List[0].Type) != "ProcessList" {
@@ -67,6 +67,7 @@ func extract(a hx.ExtractArgs) error {
 		}
 		name := fd.Name.Name
 		var incPos, firstErrPos token.Pos
+		var errPos []token.Pos
 		hasLock, hasDeferUnlock := false, false
 		// which `p.Kill()` calls sit under an `if … p.Kill != nil`
 		var walk func(n ast.Node, guarded bool)
@@ -130,6 +131,7 @@ func extract(a hx.ExtractArgs) error {
 				if name == "BeginQuery" && len(t.Results) == 2 {
 					if id, ok := t.Results[1].(*ast.Ident); !ok || id.Name != "nil" {
 						errReturns++
+						errPos = append(errPos, t.Pos())
 						if firstErrPos == 0 {
 							firstErrPos = t.Pos()
 						}
@@ -150,6 +152,12 @@ func extract(a hx.ExtractArgs) error {
 				return fmt.Errorf("BeginQuery no longer increments a status variable")
 			}
 			incBefore = firstErrPos != 0 && incPos < firstErrPos
+			// the repaired shape (F-C37-a): no error return may follow the increment
+			for _, ep := range errPos {
+				if ep > incPos {
+					errAfterInc++
+				}
+			}
 		}
 	}
 	if !sawBegin {
@@ -167,6 +175,7 @@ func extract(a hx.ExtractArgs) error {
 	lf.Raw(b.String())
 	lf.DefBool("beginQueryIncrementBeforeErrorReturns", incBefore)
 	lf.DefNat("beginQueryErrorReturns", uint64(errReturns))
+	lf.DefNat("beginQueryErrorReturnsAfterIncrement", uint64(errAfterInc))
 	sort.Strings(locked)
 	lf.DefStringList("methodsUnderMutex", locked)
 	sort.Slice(guards, func(i, j int) bool { return guards[i].m < guards[j].m })
@@ -590,6 +599,11 @@ func (g *gen) next() ev {
 				g.used[pid] = c
 				return ev{k: "bq", c: c, pid: pid}
 			}
+			if g.r.Chance(1, 3) { // error returns of BeginQuery: unregistered / pid in use (no effect since the repair of F-C37-a)
+				if e, ok := g.beginQueryErrorCall(c); ok {
+					return e
+				}
+			}
 		case 6, 7:
 			if st.present && st.work == 1 {
 				pid := st.pid
@@ -633,24 +647,44 @@ func (g *gen) next() ev {
 	}
 }
 
+// beginQueryErrorCall returns a BeginQuery on connection c that takes one of its two error returns
+// (the call class of the repaired defect begin_query_error_path), if the state allows it. The
+// generator's bookkeeping does not change: the call has no effect.
+func (g *gen) beginQueryErrorCall(c uint32) (ev, bool) {
+	st := g.conns[c]
+	if !st.present { // connection not registered
+		pid := g.nextPid
+		g.nextPid++
+		return ev{k: "bq", c: c, pid: pid}, true
+	}
+	if st.ready && st.work == 0 && len(g.used) > 0 { // pid in use (smallest running pid: deterministic)
+		var best uint64
+		for pid := range g.used {
+			if best == 0 || pid < best {
+				best = pid
+			}
+		}
+		return ev{k: "bq", c: c, pid: best}, true
+	}
+	return ev{}, false
+}
+
+// errorCall: one failed BeginQuery somewhere, if the state allows it.
+func (g *gen) errorCall() (ev, bool) {
+	for try := 0; try < 20; try++ {
+		if e, ok := g.beginQueryErrorCall(hx.Pick(g.r, g.ids)); ok {
+			return e, true
+		}
+	}
+	return ev{}, false
+}
+
 // regionCall returns one call of a listed defect class, if the state allows it.
 func (g *gen) regionCall() (ev, bool) {
 	for try := 0; try < 20; try++ {
 		c := hx.Pick(g.r, g.ids)
 		st := g.conns[c]
-		switch g.r.Intn(4) {
-		case 0: // BeginQuery on an unregistered connection
-			if !st.present {
-				pid := g.nextPid
-				g.nextPid++
-				return ev{k: "bq", c: c, pid: pid}, true
-			}
-		case 1: // BeginQuery with a pid in use
-			if st.present && st.ready && st.work == 0 && len(g.used) > 0 {
-				for pid := range g.used {
-					return ev{k: "bq", c: c, pid: pid}, true
-				}
-			}
+		switch 2 + g.r.Intn(2) {
 		case 2: // RemoveConnection during a query
 			if st.present && st.work == 1 {
 				delete(g.used, st.pid)
@@ -684,8 +718,8 @@ func run(a hx.RunArgs) error {
 	out := hx.NewOut(a.OutDir)
 	defer out.Close()
 	out.Rule = "call histories on a fresh sqle.ProcessList: (1) witness corpus, (2) every history up to a length bound over 2 connections x pids {0,1}, " +
-		"(3) random histories following the server's calling protocol on 1-4 connections (double EndQuery, error returns of BeginOperation, KILL of any id), " +
-		"(4) the same with one call of a listed defect class, (5) unconstrained random calls, (6) concurrent goroutines, one per connection, plus a killer and a reader. " +
+		"(3) random histories following the server's calling protocol on 1-4 connections (double EndQuery, error returns of BeginQuery and BeginOperation, KILL of any id), " +
+		"(4) the same with one forced failing BeginQuery (the call class of the repaired defect begin_query_error_path) or one call of a listed defect class, (5) unconstrained random calls, (6) concurrent goroutines, one per connection, plus a killer and a reader. " +
 		"A history is non-trivial when a query was registered and a context was cancelled in it"
 	r := hx.NewRand(a.Seed)
 	t0 := time.Now()
@@ -709,7 +743,9 @@ func run(a hx.RunArgs) error {
 		}
 	}
 
-	// (1) corpus: witnesses first
+	// (1) corpus: witnesses first. 0 and 1 are the witnesses of the repaired defect
+	// begin_query_error_path (they must pass now, model-free counter oracle included); 2 and 3 are the
+	// witnesses of the two listed findings.
 	corpus := [][]ev{
 		{{k: "bq", c: 1, pid: 1}},
 		{{k: "add", c: 1}, {k: "ready", c: 1}, {k: "add", c: 2}, {k: "ready", c: 2}, {k: "bq", c: 1, pid: 1}, {k: "bq", c: 2, pid: 1}},
@@ -721,9 +757,13 @@ func run(a hx.RunArgs) error {
 		// outside the protocol: EndQuery with pid 0 on an idle connection calls a nil Kill
 		{{k: "add", c: 1}, {k: "ready", c: 1}, {k: "eq", c: 1, pid: 0}},
 		{{k: "add", c: 1}, {k: "ready", c: 1}, {k: "bq", c: 1, pid: 4}, {k: "eo", c: 1}, {k: "eq", c: 1, pid: 4}},
+		// Gms.C37.sampleHistoryErr: every error return of BeginQuery, interleaved with successful ones
+		{{k: "bq", c: 1, pid: 1}, {k: "add", c: 1}, {k: "ready", c: 1}, {k: "add", c: 2}, {k: "ready", c: 2}, {k: "bq", c: 1, pid: 1}, {k: "bq", c: 2, pid: 1},
+			{k: "bq", c: 3, pid: 2}, {k: "eq", c: 1, pid: 1}, {k: "bq", c: 2, pid: 1}, {k: "bq", c: 2, pid: 1}, {k: "eq", c: 2, pid: 1}, {k: "rm", c: 1},
+			{k: "bq", c: 1, pid: 4}, {k: "rm", c: 2}},
 	}
 	for i, h := range corpus {
-		seqCase("corpus", h, i == 4)
+		seqCase("corpus", h, i == 0 || i == 1 || i == 4 || i == 7)
 	}
 
 	// (2) exhaustive short histories
@@ -768,16 +808,21 @@ func run(a hx.RunArgs) error {
 		}
 		seqCase("protocol", es, true)
 	}
-	// (4) protocol histories with one call in a listed defect class
+	// (4) protocol histories with one forced failing BeginQuery (the repaired class: must agree with
+	// the Spec) or one call in a listed defect class
 	for i := 0; i < nRegion; i++ {
 		g := newGen(r, r.Range(1, 4))
 		n := r.Range(4, 30)
 		at := r.Intn(n)
 		es := make([]ev, 0, n)
 		done := false
+		special, kind := g.regionCall, "protocol+defect-class-call"
+		if i%2 == 0 {
+			special, kind = g.errorCall, "protocol+failing-begin-query"
+		}
 		for j := 0; j < n; j++ {
 			if j >= at && !done {
-				if e, ok := g.regionCall(); ok {
+				if e, ok := special(); ok {
 					es = append(es, e)
 					done = true
 					continue
@@ -785,7 +830,7 @@ func run(a hx.RunArgs) error {
 			}
 			es = append(es, g.next())
 		}
-		seqCase("protocol+defect-class-call", es, true)
+		seqCase(kind, es, true)
 	}
 	// (5) unconstrained calls (correspondence only; the Spec leaves most of them open)
 	for i := 0; i < nMisuse; i++ {
